@@ -81,6 +81,7 @@ func RunCheck(prop, tier string, procs int, budget time.Duration) int {
 		}
 		if quick {
 			RunKVBFS(rep, pool, Config{Witness: true, TwoHandles: true, MaxDocSize: 300}, 3, 0, kvBudget)
+			RunKVBFS(rep, pool, Config{Disk: true, Witness: true, TwoHandles: true, MaxDocSize: 300}, 2, 0, kvBudget)
 		} else {
 			RunKVBFS(rep, pool, Config{Witness: true, TwoHandles: true, MaxDocSize: 300}, 4, 1, kvBudget)
 			RunKVBFS(rep, pool, Config{Disk: true, Witness: true, TwoHandles: true, MaxDocSize: 300}, 3, 1, deadline)
